@@ -6,6 +6,7 @@ import (
 	"fmt"
 	"math/rand"
 	"net"
+	"runtime"
 	"strings"
 	"sync"
 	"sync/atomic"
@@ -256,6 +257,7 @@ func runC18(o *Out, r *rand.Rand) {
 	}
 	c18Dial(o, r)
 	c18Direct(o, r)
+	c18Conc(o, r)
 }
 
 // ---- XClient wiring: a discovery client with a breaker stops dialling ----------------
@@ -413,6 +415,132 @@ func c18Direct(o *Out, r *rand.Rand) {
 				return
 			}
 			break
+		}
+	}
+}
+
+// c18Conc: concurrent callers of one breaker.  What every interleaving of the breaker's atomic
+// operations guarantees is a theorem over the micro-step model (Props.C18.conc_admission_bound,
+// conc_open_admits_nothing, conc_failures_exact); here the same statements are judged on the real
+// breaker under real goroutine schedules: with k callers whose protected function always fails, inside
+// one window and after a success, the function is started at least `threshold` and at most
+// `threshold + k − 1` times, every other call is refused with ErrBreakerOpen, and the breaker is open
+// afterwards.  (A lost update of the failure counter, or a readiness check that does not look at it,
+// shows as too many starts.)
+func c18Conc(o *Out, r *rand.Rand) {
+	// no lost failures (Props.C18.conc_failures_exact): k goroutines record N-1 failures in all, against a
+	// threshold of exactly N: the breaker must still admit; one more failure must open it.
+	for _, k := range []int{4, 16} {
+		per := 3000
+		n := k * per
+		cb := client.NewConsecCircuitBreaker(uint64(n), time.Hour)
+		cb.Success()
+		var wg sync.WaitGroup
+		for i := 0; i < k; i++ {
+			wg.Add(1)
+			go func(i int) {
+				defer wg.Done()
+				m := per
+				if i == 0 {
+					m = per - 1
+				}
+				for j := 0; j < m; j++ {
+					cb.Fail()
+				}
+			}(i)
+		}
+		wg.Wait()
+		before := cb.Ready()
+		cb.Fail()
+		after := cb.Ready()
+		o.Eval(fmt.Sprintf("conc fail-count k=%d", k), true)
+		o.Count("conc.failcount.runs")
+		rp := map[string]any{"callers": k, "threshold": n, "failures_recorded_concurrently": n - 1, "ready_before_last": before, "ready_after_last": after,
+			"theorem": "Props.C18.conc_failures_exact"}
+		if !before {
+			o.Violate("c18.conc.count-too-high", fmt.Sprintf("%d failures recorded by %d goroutines, threshold %d: the breaker is already open", n-1, k, n), rp)
+			return
+		}
+		if after {
+			o.Violate("c18.conc.lost-failure", fmt.Sprintf("%d failures recorded (all but one concurrently, by %d goroutines) inside one window, threshold %d: the breaker still admits calls – concurrent failures were lost", n, k, n), rp)
+			return
+		}
+	}
+	ths := []int{1, 2, 3, 5}
+	ks := []int{2, 4, 8, 16}
+	rounds := 6
+	if thorough() {
+		rounds = 40
+	}
+	for round := 0; round < rounds; round++ {
+		for _, th := range ths {
+			for _, k := range ks {
+				for _, viaCall := range []bool{true, false} {
+					cb := client.NewConsecCircuitBreaker(uint64(th), time.Hour)
+					cb.Success() // the window runs from now: nobody finds it elapsed
+					const perCaller = 40
+					var started, refused, other int64
+					var wg sync.WaitGroup
+					gate := make(chan struct{})
+					for i := 0; i < k; i++ {
+						wg.Add(1)
+						go func(i int) {
+							defer wg.Done()
+							<-gate
+							for j := 0; j < perCaller; j++ {
+								if viaCall {
+									err := cb.Call(func() error {
+										atomic.AddInt64(&started, 1)
+										if (i+j)%3 == 0 {
+											runtime.Gosched()
+										}
+										return errors.New("verif: failing")
+									}, 0)
+									if errors.Is(err, client.ErrBreakerOpen) {
+										atomic.AddInt64(&refused, 1)
+									} else if err == nil || err.Error() != "verif: failing" {
+										atomic.AddInt64(&other, 1)
+									}
+								} else { // the Breaker interface, as the discovery client uses it
+									if !cb.Ready() {
+										atomic.AddInt64(&refused, 1)
+										continue
+									}
+									atomic.AddInt64(&started, 1)
+									if (i+j)%3 == 0 {
+										runtime.Gosched()
+									}
+									cb.Fail()
+								}
+							}
+						}(i)
+					}
+					close(gate)
+					wg.Wait()
+					o.Eval(fmt.Sprintf("conc th=%d k=%d call=%v", th, k, viaCall), true)
+					o.Count("conc.runs")
+					if started > int64(th) {
+						o.Count("conc.overshoot") // more than `threshold` starts: callers really overlapped
+					}
+					rp := map[string]any{"threshold": th, "callers": k, "calls_per_caller": perCaller, "via_Call": viaCall,
+						"started": started, "refused": refused, "other_results": other,
+						"theorem": "Props.C18.conc_admission_bound / conc_open_admits_nothing"}
+					switch {
+					case started > int64(th+k-1):
+						o.Violate("c18.conc.too-many-starts", fmt.Sprintf("threshold %d, %d concurrent callers, only failures, one window: the protected function was started %d times – more than threshold+callers-1 = %d", th, k, started, th+k-1), rp)
+						return
+					case started < int64(th):
+						o.Violate("c18.conc.refused-too-early", fmt.Sprintf("threshold %d, %d concurrent callers: only %d failures were ever recorded, yet %d calls were refused", th, k, started, refused), rp)
+						return
+					case started+refused+other != int64(k*perCaller) || other != 0:
+						o.Violate("c18.conc.result", fmt.Sprintf("threshold %d, %d callers: %d calls returned neither the function's error nor ErrBreakerOpen", th, k, other), rp)
+						return
+					case cb.Ready():
+						o.Violate("c18.conc.not-open", fmt.Sprintf("threshold %d: after %d recorded failures inside one window the breaker admits calls", th, started), rp)
+						return
+					}
+				}
+			}
 		}
 	}
 }
